@@ -181,6 +181,10 @@ func genSeqCase(r *simrt.Rand, p seqProfile) SeqCase {
 			pending = append(pending, nextReader)
 			continue
 		}
+		if p.txWeight > 0 && r.Intn(100) < 2 {
+			c.Ops = append(c.Ops, Op{K: "seqjump", Size: []int{1<<20 + 1, 1 << 21, 1 << 31, 1 << 32, 1 << 40}[r.Intn(5)]})
+			continue
+		}
 		// control operations
 		if p.ctlWeight > 0 && r.Intn(100) < p.ctlWeight {
 			switch r.Pick(3, 3, 3, 2) {
